@@ -202,6 +202,18 @@ mut("c16-status-swapped", "C16", "C16.R1", (LS, "                    true => Ite
 mut("c16-coloring-changes-text", "C16", "C16.R2", (LS, "    let color_end = end.min(line_end);", "    let color_end = if coloring { end.min(line_end) } else { end };"))
 mut("c16-colour-const-not-sgr", "C16", "C16.R2", (LS, 'const RESET_COLOR: &str = "\\x1b[0m";', 'const RESET_COLOR: &str = "\\x1b[0m ";'))
 mut("c16-json-without-line-map", "C16", "C16.R1", (CH, "        ListFormat::JSON => serde_json::to_string(&build_list(&content, &markers, Some(&line_map)))\n            .map_err(|_| ListError::JSONSerializeError),\n    }\n}\n\npub fn list_all(", "        ListFormat::JSON => serde_json::to_string(&build_list(&content, &markers, None))\n            .map_err(|_| ListError::JSONSerializeError),\n    }\n}\n\npub fn list_all("))
+mut("c16-r10-start-ofs-plus", "C16", "C16.R10", (LS, "    let marker_start_ofs_len = start - line_start;", "    let marker_start_ofs_len = start + line_start;"))
+mut("c16-r10-end-ofs-no-minus1", "C16", "C16.R10", (LS, "    let marker_end_ofs_len = end - line_end_start_pos - 1;", "    let marker_end_ofs_len = end - line_end_start_pos;"))
+mut("c16-r10-start-tab-padding-dropped", "C16", "C16.R10", (LS, "    result.push_str(&TABSPACE.to_string().repeat(marker_start_tab_len));\n", ""))
+mut("c16-r10-end-padding-plus-tabs", "C16", "C16.R10", (LS, '    result.push_str(&" ".repeat(marker_end_ofs_len + line_number_ofs - marker_end_tab_len));', '    result.push_str(&" ".repeat(marker_end_ofs_len + line_number_ofs + marker_end_tab_len));'))
+mut("c16-r10-start-padding-without-number-column", "C16", "C16.R10", (LS, '    result.push_str(&" ".repeat(line_number_ofs + marker_start_ofs_len - marker_start_tab_len));', '    result.push_str(&" ".repeat(marker_start_ofs_len - marker_start_tab_len));'))
+mut("c16-r10-offset-without-numbers-1", "C16", "C16.R10", (LS, "        (&removed, 0)", "        (&removed, 1)"))
+mut("c16-r10-number-column-wider", "C16", "C16.R10", (LS, 'width = LINE_COLUMN_WIDTH - 2);', 'width = LINE_COLUMN_WIDTH - 1);'))
+mut("c16-r10-number-column-extra-space", "C16", "C16.R10", (LS, 'format!("{:width$} {}", i, "|", width', 'format!("{:width$} {} ", i, "|", width'))
+mut("c16-r10-offset-smaller-than-column", "C16", "C16.R10", (LS, "            LINE_COLUMN_WIDTH,\n        )\n    } else {", "            LINE_COLUMN_WIDTH - 1,\n        )\n    } else {"))
+benign("c16-r10-benign-padding-one-repeat-order", (LS, '    result.push_str(&" ".repeat(line_number_ofs + marker_start_ofs_len - marker_start_tab_len));', '    result.push_str(&" ".repeat(marker_start_ofs_len - marker_start_tab_len + line_number_ofs));'))
+benign("c16-r10-benign-named-pad", (LS, '    result.push_str(&" ".repeat(marker_end_ofs_len + line_number_ofs - marker_end_tab_len));', '    let end_pad = marker_end_ofs_len + line_number_ofs - marker_end_tab_len;\n    result.push_str(&" ".repeat(end_pad));'))
+benign("c16-r10-benign-column-literal-bar", (LS, 'format!("{:width$} {}", i, "|", width', 'format!("{:width$} |", i, width'))
 mut("c16-json-item-different-args", "C16", "C16.R2", (LS, "                *is_removal,\n                false,\n                line_range,", "                true,\n                false,\n                line_range,"))
 mut("c16-byte0-exit-before-check", "C16", "C16.R3", (LB, "        if cursor >= bytes.len() {\n            break None;\n        }\n\n        match check(content, bytes, &cursor) {\n            CheckResult::Skip => {}\n            CheckResult::Found => break Some(cursor),\n            CheckResult::None => {\n                if pause_on_char {\n                    break None;\n                }\n            }\n        }\n\n        if cursor == 0 {\n            break None;\n        }", "        if cursor >= bytes.len() || cursor == 0 {\n            break None;\n        }\n\n        match check(content, bytes, &cursor) {\n            CheckResult::Skip => {}\n            CheckResult::Found => break Some(cursor),\n            CheckResult::None => {\n                if pause_on_char {\n                    break None;\n                }\n            }\n        }"))
 mut("c16-colour-used-for-width", "C16", "C16.R2", (LS, "    result.push_str(&\" \".repeat(line_number_ofs + marker_start_ofs_len - marker_start_tab_len));", "    result.push_str(&\" \".repeat(line_number_ofs + marker_start_ofs_len - marker_start_tab_len + marker_start_color.len()));"))
